@@ -315,9 +315,10 @@ func (l *lexer) tryLexOperator() bool {
 	} else if isAlpha(op) {
 		// If operator is alphabetic (such as "in" or "is"),
 		// we avoid matching "include" or functions like "is_currently_on"
-		// For such operators to be valid, they need to have a space after.
+		// For such operators to be valid, they must not be followed by a character
+		// that continues a name; any whitespace, a parenthesis or a quote may follow.
 		lenOp := len(op)
-		if (l.pos+lenOp+1) <= len(l.input) && l.input[l.pos+lenOp:l.pos+lenOp+1] != " " {
+		if (l.pos+lenOp+1) <= len(l.input) && isName(l.input[l.pos+lenOp:l.pos+lenOp+1]) {
 			return false
 		}
 	} else if op == delimTrimWhitespace {
